@@ -42,7 +42,7 @@ func init() {
 			{Name: "router-mutates-message", File: "floodsub.go", Old: "func (fs *FloodSubRouter) Publish(msg *Message) {\n", New: "func (fs *FloodSubRouter) Publish(msg *Message) {\n\tif msg.Message.Key != nil && len(msg.Message.Key) == 0 {\n\t\tmsg.Message.Key = nil\n\t}\n", Expect: "R03.6"},
 		}})
 	register(&Property{ID: "C16", Run: runC16,
-		Explain: "Structural necessary conditions of C16: (R16.1) shouldPush admits a message only on the false edges of blacklist.Contains(forwarder) and blacklist.Contains(author), and remote messages reach pushMsg only through shouldPush; (R16.2) the blacklistPeer arm of the event loop always calls blacklist.Add and, when a queue exists, closes it, deletes it from p.peers, clears topic state and notifies the router; (R16.3) the newPeerStream arm sends the hello packet only on the false edge of blacklist.Contains and on the true edge closes/removes the queue and resets the stream; handlePendingPeers creates a queue only on the false edge; (R16.4) every outbound push takes its queue from p.peers (lookup/range) in the same event-loop step; (R16.5) both Blacklist implementations use the same key in Add and Contains; (R16.6) a message that was inside the validation pipeline when its forwarder or author was blacklisted is not delivered: the sendMsg arm of the event loop reaches publishMessage only on the false edges of blacklist.Contains(ReceivedFrom) and Contains(author); (shared R15.5/R15.6) a closed queue hands out nothing, even with a backlog, and the writer leaves on the error. (audit round) R16.2: topic state cleared on every path of the arm; (R16.7) a cached message is served to IWANT only on the false edges of both blacklist tests, and only handleIWant reads the cache for sending. NOT decided: expiry of the time-cached blacklist; messages a validation worker hands to the event loop in the same instant the blacklisting is processed are ordered by the loop's select (either order satisfies the property).",
+		Explain: "Structural necessary conditions of C16: (R16.1) shouldPush admits a message only on the false edges of blacklist.Contains(forwarder) and blacklist.Contains(author), and remote messages reach pushMsg only through shouldPush; (R16.2) the blacklistPeer arm of the event loop always calls blacklist.Add and, when a queue exists, closes it, deletes it from p.peers, clears topic state and notifies the router; (R16.3) the newPeerStream arm sends the hello packet only on the false edge of blacklist.Contains and on the true edge closes/removes the queue and resets the stream; handlePendingPeers creates a queue only on the false edge; (R16.4) every outbound push takes its queue from p.peers (lookup/range) in the same event-loop step; (R16.5) both Blacklist implementations use the same key in Add and Contains; (R16.6) a message that was inside the validation pipeline when its forwarder or author was blacklisted is not delivered: the sendMsg arm of the event loop reaches publishMessage only on the false edges of blacklist.Contains(ReceivedFrom) and Contains(author); (shared R15.5/R15.6) a closed queue hands out nothing, even with a backlog, and the writer leaves on the error. (audit round) R16.2: topic state cleared on every path of the arm; (R16.7) a cached message is served to IWANT only on the false edges of both blacklist tests, and only handleIWant reads the cache for sending. (R16.8) the topic-map bookkeeping and the router's HandleRPC/Preprocess are reached only for a sender that is not blacklisted. NOT decided: expiry of the time-cached blacklist; messages a validation worker hands to the event loop in the same instant the blacklisting is processed are ordered by the loop's select (either order satisfies the property).",
 		Assume:  []string{"the event loop is single-threaded (processLoop owns p.peers)"},
 		Mutants: []Mutant{
 			{Name: "blacklisted-rpc-acted-upon", File: "pubsub.go", Old: "\tif p.blacklist != nil && p.blacklist.Contains(rpc.from) {\n\t\tfor _, pmsg := range rpc.GetPublish() {", New: "\tif p.blacklist != nil && p.blacklist.Contains(rpc.from) && len(rpc.GetSubscriptions()) == 0 {\n\t\tfor _, pmsg := range rpc.GetPublish() {", Expect: "R16.8"},
